@@ -22,6 +22,28 @@ struct Obj
 	bool gone = false; // closed or destroyed by an intervention
 };
 
+// drops chosen payload segments of one direction every time they come by, up to a per-segment count: the way to
+// get one segment dropped, re-sent and dropped again at a hop that is not the sender's first one (so that the
+// second drop is reported to the sender some virtual time after the re-send)
+struct SeqDropper : sim::sink
+{
+	ip::address from;
+	std::map<std::uint64_t, int> remaining; // index of the segment among the distinct payload segments seen -> drops left
+	std::map<std::uint64_t, std::uint64_t> index_of; // seq_nr -> index
+	std::uint64_t drops = 0, repeat_drops = 0;
+	void incoming_packet(sim::aux::packet p) override
+	{
+		if (p.type != sim::aux::packet::type_t::payload || p.from.address() != from) { sim::forward_packet(std::move(p)); return; }
+		auto it = index_of.find(p.seq_nr);
+		if (it == index_of.end()) { std::uint64_t const n = index_of.size(); it = index_of.emplace(p.seq_nr, n).first; }
+		auto r = remaining.find(it->second);
+		if (r == remaining.end() || r->second <= 0) { sim::forward_packet(std::move(p)); return; }
+		--r->second; ++drops;
+		if (p.drop_fun) { auto drop_fun = std::move(p.drop_fun); drop_fun(std::move(p)); }
+	}
+	std::string label() const override { return "seq-dropper"; }
+};
+
 struct TcpPair
 {
 	// acceptor + client + accepted socket, streams in both directions
@@ -55,6 +77,7 @@ struct Scn
 	ip::address A, B, C, D;
 	std::uint64_t keyseq = 1;
 
+	std::shared_ptr<SeqDropper> dropper;
 	// components
 	std::vector<std::unique_ptr<TcpPair>> pairs;
 	std::vector<std::unique_ptr<asio::high_resolution_timer>> timers;
@@ -461,7 +484,7 @@ struct Scn
 	}
 
 	// ---------------------------------------------------------- scenario table
-	static int count() { return 15; }
+	static int count() { return 16; }
 	void build()
 	{
 		base();
@@ -516,6 +539,16 @@ struct Scn
 					after(60000000, [pp]() { pp->s.read_limit = UINT64_MAX; pp->s.start_read(); });
 				}
 				add_bystanders(); break;
+			case 15: desc = "30 kB c->s, client neither reads nor writes afterwards (so it can be moved); segments 2, 12, 19 and 20 are dropped twice, segment 6 three times, at a hop behind the sender's 10 ms access queue";
+				{
+					QSpec access; access.bw = 1000000; access.lat_ns = 10000000; access.cap = 0;
+					net.out_spec[A] = {access, fastq}; net.def_net = {fastq}; net.in_spec[B] = {fastq};
+					dropper = std::make_shared<SeqDropper>();
+					dropper->from = A; dropper->remaining = {{2, 2}, {6, 3}, {12, 2}, {19, 2}, {20, 2}};
+					std::shared_ptr<SeqDropper> d = dropper; ip::address const a_ = A, b_ = B;
+					net.net_extra = [d, a_, b_](ip::address src, ip::address dst) { return src == a_ && dst == b_ ? std::static_pointer_cast<sim::sink>(d) : std::shared_ptr<sim::sink>(); };
+				}
+				start_sim(); { TcpPair& p = add_pair(4000, 0, 30000, 0, true); p.c.wpat = 2; p.c.read_limit = 0; } add_bystanders(); break;
 			default: desc = "bulk tcp through a lossy network hop, socket-returning accept, 80 kB c->s while the server only waits for readability";
 				net.out_spec[A] = {fastq}; net.def_net = {lossy}; net.in_spec[B] = {fastq};
 				start_sim(); { TcpPair& p = add_pair(4000, 2, 80000, 0, true); p.c.wpat = 3; p.s.rstyle = 1; } add_bystanders(); break;
